@@ -16,7 +16,7 @@ VARIABLES hist, done
 
 (* Operation mix; configurations may substitute another one (Classes <- ...). *)
 ClassesCleanup == <<"write", "write", "write", "store", "read", "read", "delete", "expireall",
-                    "tick", "tick", "tick", "tick", "cleanup", "cleanup", "cleanup", "len">>
+                    "tick", "tick", "tick", "tick", "cleanup", "cleanup", "cleanup", "len", "walk">>   \* walk: also a Walk whose callback fails
 ClassesEvict   == <<"write", "write", "write", "write", "write", "store", "read", "read", "read", "read",
                     "load", "delete", "tick", "tick", "cleanup", "cleanup", "cleanup", "expireall">>
 
